@@ -1357,8 +1357,7 @@ package profile
 //@   loop 3
 //@     invariant starts_kept: forall k int :: 0 <= k && k < len(p.Mapping) ==> p.Mapping[k].Start == atiter(1, p.Mapping[k].Start)
 
-// ---- C01 (strengthened after seeded change gzip-inflate-size-cap-truncates): a gzip-wrapped profile is inflated from
-// the gzip reader itself, to its end — no size-limiting or otherwise truncating reader sits between the inflater and
-// ReadAll.
-//@ func ParseData nosafety
-//@   callsite ReadAll whole_stream: $arg0 == boxed(gz)
+// (C01, withdrawn: a call-site clause "ParseData hands ReadAll the gzip reader itself" reported the seeded change
+// gzip-inflate-size-cap-truncates, but it also alarmed on an independently written behaviour-preserving refactoring that
+// moves the inflation into a helper (benign corpus C02.b) — it demanded a code shape, not the property. The gzip layer
+// stays outside the functions under contract.)
